@@ -407,8 +407,13 @@ func (fr *FuncRun) execGo(f *Frame, st *State, x *ssa.Go) {
 		if h == "Held" {
 			continue
 		}
-		fr.spawned.heaps[h] = true
+		if ws.oldHeaps[h] {
+			fr.spawned.heaps[h] = true
+		}
+		saved := fr.curWriteFresh
+		fr.curWriteFresh = !ws.oldHeaps[h]
 		fr.noteHeapWrite(h)
+		fr.curWriteFresh = saved
 	}
 	for cell := range ws.cells {
 		if cell.frame <= f.id && cell.frame != 0 {
